@@ -13,10 +13,24 @@ macro_rules! witness {
     };
 }
 
+/// assertion sets of the Push-VM harnesses, selected per property (C01 / C02 / C03)
+#[macro_export]
+macro_rules! a01 { ($c:expr, $m:literal) => { #[cfg(feature = "a01")] assert!($c, $m); }; }
+#[macro_export]
+macro_rules! a02 { ($c:expr, $m:literal) => { #[cfg(feature = "a02")] assert!($c, $m); }; }
+#[macro_export]
+macro_rules! a03 { ($c:expr, $m:literal) => { #[cfg(feature = "a03")] assert!($c, $m); }; }
+
 pub mod symrng;
 
 pub mod probes;
 
+#[cfg(feature = "pushvm")]
+pub mod push_ref;
+#[cfg(feature = "pushvm")]
+pub mod c01_step;
+#[cfg(feature = "pushvm")]
+pub mod c01_stepgen;
 #[cfg(feature = "c04")]
 pub mod c04_stack;
 #[cfg(feature = "c06")]
@@ -35,3 +49,17 @@ pub mod c15_order;
 pub mod c17_erased;
 #[cfg(feature = "c18")]
 pub mod c18_generators;
+
+/// marker harnesses: let the driver tell apart builds of the same modules with different assertion sets
+#[cfg(kani)]
+pub mod marker {
+    #[cfg(feature = "a01")]
+    #[kani::proof]
+    fn marker_a01() {}
+    #[cfg(feature = "a02")]
+    #[kani::proof]
+    fn marker_a02() {}
+    #[cfg(feature = "a03")]
+    #[kani::proof]
+    fn marker_a03() {}
+}
